@@ -228,6 +228,7 @@ def run_scenario(ws, scn, d, tokens=None, measure_threads=False, trace=False, yi
         local_inputs.append(q)
     args = [str(x) for x in local_inputs] + ws.base_args(scn, out)[len(ws.new):] + list(extra_args)
     env = dict(os.environ)
+    env["RUST_BACKTRACE"] = "0"      # symbolising a backtrace of the debug binary can take a minute under load
     pause_dir = None
     if scn["faultAt"] != "none":
         env["WILD_VERIF_FAULT"] = f"{scn['faultAt']}:{scn['faultKind']}"
@@ -373,7 +374,7 @@ def default_modify(inputs, d):
 # generic replay loop
 
 
-def replay(ctx, prop, select, judge, n_quick, n_thorough, workers=8, run_kwargs=None, cov=None):
+def replay(ctx, prop, select, judge, n_quick, n_thorough, workers=8, run_kwargs=None, cov=None, trace_sample=0):
     """TLC -> scenarios -> real runs -> judge(scn, admissible_outcomes, observed) -> report.
     `select(key_dict)` filters scenarios; `judge` returns list of (key, text) problems."""
     import random
@@ -401,7 +402,11 @@ def replay(ctx, prop, select, judge, n_quick, n_thorough, workers=8, run_kwargs=
             i, k = i_k
             scn = dict(zip(SCN_KEYS, k))
             kw = dict(run_kwargs(scn) if callable(run_kwargs) else (run_kwargs or {}))
+            if i < trace_sample:
+                kw["trace"] = True
             obs = run_scenario(ws, scn, d / f"r{i}", **kw)
+            if i < trace_sample:
+                obs["trace_ok"], obs["trace_info"] = validate_pipeline_trace(d / f"r{i}" / "trace.ndjson", f"{prop}.r{i}")
             return scn, obs, d / f"r{i}"
 
         with ThreadPoolExecutor(max_workers=workers) as ex:
@@ -412,6 +417,11 @@ def replay(ctx, prop, select, judge, n_quick, n_thorough, workers=8, run_kwargs=
                                    lambda: save_replay(prop, f"hang-{rd.name}", rd, meta={"scenario": scn, "observed": obs}))
                 continue
             adm = by[scn_key(scn)]
+            if obs.get("trace_ok") is False:
+                problems += 1
+                ctx.verdict.report("pipeline-order-trace-rejected",
+                                   f"the phase / scope events of this link are not a behaviour of Wild.tla: {obs['trace_info']}",
+                                   lambda: save_replay(prop, f"pipeline-{rd.name}", rd, meta={"scenario": scn, "info": obs["trace_info"]}))
             for key, text in judge(scn, adm, obs):
                 problems += 1
                 ctx.verdict.report(key, text + f" | scenario={json.dumps(scn)} observed rc={obs['rc']} out={obs['outClass']}/{obs['outInode']}",
@@ -423,9 +433,30 @@ def replay(ctx, prop, select, judge, n_quick, n_thorough, workers=8, run_kwargs=
                                 "admissible": [{k: a[k] for k in ("exitZero", "outClass", "outInode", "sibling", "tokensBack")} for a in adm[:3]]})
             shutil.rmtree(rd, ignore_errors=True)
     cov["traces_validated_against_impl"] = len(results)
+    cov["pipeline_traces_validated_by_tlc"] = sum(1 for _s, o, _r in results if o.get("trace_ok") is True)
+    if trace_sample and not cov["pipeline_traces_validated_by_tlc"]:
+        raise ToolError("no pipeline trace was validated (hooks missing?)")
     cov["samples"] = trim_samples(samples, 4, 1200)
     cov["problems_seen"] = problems
     return cov
+
+
+def validate_pipeline_trace(path, name):
+    """Validate the phase / scope-boundary events of one link against specs/Wild.tla (WildTrace).
+    Events of the worker process only (the forking parent emits none)."""
+    if not path.exists():
+        return None, "no trace"
+    evs = [json.loads(x) for x in open(path)]
+    if not evs:
+        return None, "empty trace"
+    pids = {}
+    for e in evs:
+        pids[e["pid"]] = pids.get(e["pid"], 0) + 1
+    worker = max(pids, key=pids.get)
+    p = path.with_suffix(".worker.ndjson")
+    p.write_text("\n".join(json.dumps(e) for e in evs if e["pid"] == worker) + "\n")
+    ok, info = tlc.validate_trace("WildTrace", "mc/WildTrace.cfg", p, timeout=300, name=f"wild.{name}")
+    return ok, {k: info.get(k) for k in ("unmatched_index", "unmatched_event", "violated")}
 
 
 def anti_vacuity(cfg, invariant):
